@@ -118,6 +118,7 @@ def make_world(g, tag):
         ta, tb = g.json_text(a), g.json_text(b)
         # mix the three matcher kinds over the masked paths
         mts = []
+        type_visible = []
         if r.random() < 0.35:
             # one matcher, several paths, missing paths ignored; a path that never exists leads, ends or
             # sits in the middle of the list
@@ -140,6 +141,12 @@ def make_world(g, tag):
                 continue
             if p in CONTAINERS:
                 mts.append(docs.any_matcher([p], r.choice([None, '"MASK"'])))
+            elif (p in changed and docs.go_type(va) and docs.go_type(vb) and docs.go_type(va) != docs.go_type(vb)
+                  and not hash_path and r.random() < 0.6):
+                # match.Type[any] accepts both variants, but its placeholder names the value's OWN type: a value that
+                # changed its type (string -> number) is a visible change
+                mts.append(docs.type_matcher([p], 'any'))
+                type_visible.append(p)
             elif k < 0.3 and type(va) == type(vb) and docs.go_type(va) in ('string', 'bool', 'float64'):
                 # Type is satisfied by both variants (the value kept its type)
                 mts.append(docs.type_matcher([p], docs.go_type(va)))
@@ -150,6 +157,8 @@ def make_world(g, tag):
         # user-defined matchers: the built-in ones grouped in a composite (which reports success as an
         # empty non-nil slice or as nil), inspecting matchers in between
         mt = ' '.join(docs.maybe_wrap(r, mts, 0.3))
+        if type_visible:
+            only_masked = False
     w = World(tag)
     w.add(mode_line(False, ''))
     w.add(cfg_line(1, 'snaps', None, None, 'none'))
